@@ -250,6 +250,8 @@ def all_assignments(fnode, name) -> List[Optional[ast.expr]]:
                     vals.append(None)
         elif isinstance(n, (ast.AugAssign, ast.AnnAssign)) and isinstance(n.target, ast.Name) and n.target.id == name:
             vals.append(getattr(n, "value", None))
+        elif isinstance(n, ast.NamedExpr) and isinstance(n.target, ast.Name) and n.target.id == name:
+            vals.append(n.value)  # (name := value)
         elif isinstance(n, (ast.For, ast.comprehension)):
             if any(isinstance(x, ast.Name) and x.id == name for x in ast.walk(n.target)):
                 vals.append(None)
